@@ -2,6 +2,7 @@
 import os
 import _kvstack as kv
 import vf
+from _kvstack import TRACE_VALS
 
 
 def content_key(ovl):
@@ -61,7 +62,7 @@ def run(ctx):
         keyseq = sorted([[1], [1, 1], [1, 1, 1], [1, 2], [1, 2, 1], [2], [2, 1], [2, 2], [2, 2, 2], [3], [3, 1], [3, 3],
                          [1, 1, 2], [2, 1, 1], [3, 2], [3, 3, 3]])
         ntr, nst = (80, 250) if ctx.thorough else (15, 120)
-        tp = kv.trace_run(ctx, binary, keyseq, [], False, ["x", "y"], "kv", ntr, nst, "c03")
+        tp = kv.trace_run(ctx, binary, keyseq, [], False, TRACE_VALS, "kv", ntr, nst, "c03")
         if tp:
             v = kv.trace_check(ctx, tp, "C03")
             nev = v["total"]
